@@ -68,6 +68,9 @@ def shard(shard, nshards, tier, seed):
             clause(acc, la, sa, a, lb, sb, b, ab)
     if shard == 0:
         class_fragment(acc)
+    for idx, (warm, seq) in enumerate(relation_scenarios(tier)):
+        if idx % nshards == shard:
+            run_relation(warm, seq, acc, tier)
     return acc
 
 
@@ -133,7 +136,123 @@ def class_fragment(acc):
                 acc.violation({"a": lab, "b": "raw:tuple"}, "clause:dependent-vs-bound", {"expected": "LESS", "got": name(o)})
 
 
+# ----------------------------------------------------------------------------------------
+# the subclass relation itself changes between comparisons (virtual subclasses registered on an
+# ABC, a class starting to satisfy a runtime-checkable protocol): the order must follow it
+
+
+def _fresh_world():
+    import abc
+    import typing
+
+    class Ab(abc.ABC):
+        pass
+
+    class Ab2(Ab):
+        pass
+
+    @typing.runtime_checkable
+    class Pr(typing.Protocol):
+        def pm(self): ...
+
+    class K:
+        pass
+
+    class K2(K):
+        pass
+
+    class Z:
+        pass
+
+    classes = {"Ab": Ab, "Ab2": Ab2, "Pr": Pr, "K": K, "K2": K2, "Z": Z}
+    events = {
+        "Ab.register(K)": lambda: Ab.register(K),
+        "Ab.register(K2)": lambda: Ab.register(K2),
+        "Ab2.register(Z)": lambda: Ab2.register(Z),
+        "K.pm=...": lambda: setattr(K, "pm", lambda self: 1),
+        "Z.pm=...": lambda: setattr(Z, "pm", lambda self: 1),
+    }
+    return classes, events
+
+
+REL_NAMES = ["Ab", "Ab2", "Pr", "K", "K2", "Z"]
+REL_EVENTS = ["Ab.register(K)", "Ab.register(K2)", "Ab2.register(Z)", "K.pm=...", "Z.pm=..."]
+REL_WRAPS = ["plain", "list", "type", "dict-value", "union-int"]
+
+
+def _wrap(kind, c):
+    from ovld.types import Union as OvUnion
+
+    return {"plain": lambda: c, "list": lambda: list[c], "type": lambda: type[c], "dict-value": lambda: dict[str, c],
+            "union-int": lambda: OvUnion[c, int]}[kind]()
+
+
+def _class_expect(a, b):
+    sx, sy = issubclass(a, b), issubclass(b, a)
+    return Order.SAME if a is b or (sx and sy) else Order.LESS if sx else Order.MORE if sy else Order.NONE
+
+
+def relation_scenarios(tier):
+    """(warm-up comparison or None / 'all', sequence of events)"""
+    warm = [None, "all"] + [(x, y, w) for x in REL_NAMES for y in REL_NAMES if x != y for w in (("plain",) if tier == "quick" else REL_WRAPS)]
+    seqs = [(e,) for e in REL_EVENTS] + [(e, f) for e in REL_EVENTS for f in REL_EVENTS if e != f]
+    for w in warm:
+        for sq in seqs:
+            yield w, sq
+
+
+def run_relation(warm, seq, acc, tier="quick"):
+    classes, events = _fresh_world()
+    found = []
+
+    def compare_all(stage):
+        for x in REL_NAMES:
+            for y in REL_NAMES:
+                exp = _class_expect(classes[x], classes[y])
+                for w in REL_WRAPS:
+                    if w == "union-int" and x == y:
+                        continue
+                    a, b = _wrap(w, classes[x]), _wrap(w, classes[y])
+                    ab, ba = to(a, b), to(b, a)
+                    if acc is not None:
+                        acc.count("evaluations")
+                        acc.count("clause_checks")
+                        if exp is not Order.NONE and stage:
+                            acc.count("nontrivial")
+                    disc = None
+                    if isinstance(ab, str) or isinstance(ba, str) or opposite(ab) is not ba:
+                        disc = "relation-change:not-mirror-symmetric"
+                    elif w in ("plain", "list", "type", "dict-value") and ab is not exp:
+                        # plain classes: the order is subclassing; list / type / dict compare argument-wise
+                        disc = "relation-change:classes-vs-issubclass" if w == "plain" else "relation-change:generic-argument-wise"
+                    if disc:
+                        found.append((disc, {"a": x, "b": y, "wrap": w, "stage": stage, "expected": exp.name, "got": name(ab), "reverse": name(ba)}))
+
+    if warm == "all":
+        compare_all(0)
+    elif warm is not None:
+        x, y, w = warm
+        to(_wrap(w, classes[x]), _wrap(w, classes[y]))
+    for k, e in enumerate(seq):
+        events[e]()
+        compare_all(k + 1)
+    if acc is not None:
+        acc.count("relation_scenarios")
+        seen = set()
+        for disc, detail in found:
+            if (disc, detail["a"], detail["b"], detail["wrap"]) in seen:
+                continue
+            seen.add((disc, detail["a"], detail["b"], detail["wrap"]))
+            acc.violation({"relation": True, "warm": list(warm) if isinstance(warm, tuple) else warm, "events": list(seq),
+                           "a": detail["a"], "b": detail["b"], "wrap": detail["wrap"]}, disc, detail)
+    return found
+
+
 def replay(case):
+    if case.get("relation"):
+        w = case["warm"]
+        found = run_relation(tuple(w) if isinstance(w, list) else w, tuple(case["events"]), None)
+        return [f for f in found if (f[1]["a"], f[1]["b"], f[1]["wrap"]) == (case["a"], case["b"], case["wrap"])]
     uni = {u[0]: u for u in U.universe(2)}
     out = []
     if "c" in case:
@@ -173,7 +292,12 @@ def main(tier):
              "hierarchy with a chain, a diamond, an unrelated class, an ABC with a virtual subclass, a protocol, int, str; raw "
              "annotations and their normal forms; checked: reflexivity, mirror symmetry, no exception, and the named clauses on "
              "the sub-families they name (classes = issubclass incl. all triples for transitivity; generic vs origin and "
-             "argument-wise; union / intersection vs member; dependent vs bound); non-trivial = unordered pairs that are ordered",
+             "argument-wise; union / intersection vs member; dependent vs bound); plus histories in which the subclass relation "
+             "itself changes between comparisons (a fresh world of 6 classes: ABC, sub-ABC, runtime protocol, chain of 2, unrelated; "
+             "events = register a virtual subclass / a class gains the protocol's method; every sequence of 1-2 distinct events; "
+             "before them no comparison, one comparison (every ordered pair; thorough: in every wrapping) or all; after every "
+             "event all ordered pairs plain and inside list[...] / type[...] / dict[str, ...] must equal issubclass at that "
+             "moment, and stay mirror-symmetric inside a Union); non-trivial = unordered pairs that are ordered",
         assumptions=["nothing beyond the statement is demanded (no transitivity outside the class fragment)"],
         nontrivial_key="nontrivial",
     )
